@@ -241,6 +241,14 @@ func (r *sessionRegistry) get(sid [sessionIDLen]byte, principalKey string) *sess
 	return entry
 }
 
+// isLive reports whether entry is still the registered entry for sid, i.e.
+// it has not been closed, deleted, expired or swept since it was looked up.
+func (r *sessionRegistry) isLive(sid [sessionIDLen]byte, entry *sessionEntry) bool {
+	r.mu.Lock()
+	defer r.mu.Unlock()
+	return r.entries[sid] == entry
+}
+
 // close removes the entry and invokes state.Close() if defined. Returns
 // true on hit.
 func (r *sessionRegistry) close(sid [sessionIDLen]byte) bool {
